@@ -11,3 +11,24 @@ package packets
 
 //@ func TotalBytes trusted pure
 //@ ensures result == totalBytes(p)
+
+// Acknowledgement constructors: the acknowledgement carries the identifier of the packet it answers.
+//@ func (*Publish).NewPuback
+//@ props C01 C04
+//@ requires p != nil
+//@ ensures [C01] result != nil && isfresh(result) && result.PacketID == p.PacketID && result.Code == code && result.Version == p.Version && result.Properties == ppt
+
+//@ func (*Publish).NewPubrec
+//@ props C01 C04
+//@ requires p != nil
+//@ ensures [C04] result != nil && isfresh(result) && result.PacketID == p.PacketID && result.Code == code && result.Version == p.Version && result.Properties == ppt
+
+//@ func (*Pubrel).NewPubcomp
+//@ props C04
+//@ requires p != nil
+//@ ensures [C04] result != nil && isfresh(result) && result.PacketID == p.PacketID
+
+//@ func (*Pubrec).NewPubrel
+//@ props C03 C04
+//@ requires p != nil
+//@ ensures [C04] result != nil && isfresh(result) && result.PacketID == p.PacketID
